@@ -1,6 +1,7 @@
 """Prints the prompt for a seeded-change sub-agent: python3 mc/seed_prompt.py C01 /tmp/wt/c01 /tmp/seed_out/C01"""
 import json, sys
 pid, wt, out = sys.argv[1:4]
+EXTRA = sys.argv[4] if len(sys.argv) > 4 else ""
 p = [json.loads(l) for l in open('/verif/properties.jsonl') if json.loads(l)['id'] == pid][0]
 print(f"""You are helping to evaluate a verification tool for the Python geometry library "mouette". Your own git worktree of the library is at {wt} (a scratch copy: edit it freely; never touch /repo, never look at or touch /verif). Run Python with /venv/bin/python from inside {wt} (cwd first on sys.path, so `import mouette` picks up YOUR copy - verify with `python -c "import mouette; print(mouette.__file__)"`).
 
@@ -17,5 +18,6 @@ Your job: produce THREE different, realistic, subtle changes to the library sour
  (3) the breakage needs something specific to manifest - a particular order of calls, a multi-step sequence of operations, an unusual (but legal) input shape or parameter relation, a particular configuration switch, or two cooperating sites that each look fine alone - NOT something ordinary use would expose at once;
  (4) you provide a demonstration: a small standalone Python program demo.py (run as `/venv/bin/python demo.py` from the worktree root) that exits 0 on the unmodified library and exits 1 (printing what went wrong) with the change applied.
 Prefer changes in shared mutable state, lazy-cache/guard logic, index/offset arithmetic, comparison operators in bounds, defaults and aliasing - in the files listed above. The three changes should touch different mechanisms/clauses.
+{EXTRA}
 
 Deliverables: for k in a, b, c create the directory {out}/{{k}}/ containing: patch.diff (output of `git -C {wt} diff` for that change alone, applicable with `git apply` to a clean checkout), demo.py, and notes.txt (which clause it breaks, what it needs in order to manifest, the exact commands you ran and their outcome: baseline test summary line, test summary line with the change, demo exit codes without/with the change). After saving each patch, restore the worktree with `git -C {wt} checkout -- .` before making the next change. Leave the worktree clean at the end. Your final message: a short summary of the three changes (one paragraph each).""")
